@@ -201,7 +201,15 @@ fn fb_layer(s: &InnerSpec) -> feedback::Layer {
 pub fn build(spec: &NetSpec) -> Result<Network, String> {
     try_run(|| {
         let mut net = Network::new(spec.input.clone());
+        // the accumulations are configured either before the first connection is made or after the last one (the order of
+        // the configuration calls must not matter); which of the two is a fixed function of the request
+        let early = spec.builds.len() % 2 == 1;
+        let mut configured = false;
         for b in &spec.builds {
+            if early && !configured && matches!(b, Build::Connect(..) | Build::Loopback { .. }) {
+                net.set_accumulation(acc_of(&spec.skipacc), acc_of(&spec.loopacc));
+                configured = true;
+            }
             match b {
                 Build::Layer(s) => {
                     match s {
@@ -225,7 +233,9 @@ pub fn build(spec: &NetSpec) -> Result<Network, String> {
                 Build::Loopback { outof, into, iterations, scale, inskips } => net.loopback(*outof, *into, *iterations, scale_of(scale), *inskips),
             }
         }
-        net.set_accumulation(acc_of(&spec.skipacc), acc_of(&spec.loopacc));
+        if !configured {
+            net.set_accumulation(acc_of(&spec.skipacc), acc_of(&spec.loopacc));
+        }
         net.set_objective(obj_of(&spec.obj), spec.clamp);
         if let Some(o) = &spec.opt {
             net.set_optimizer(o.create());
